@@ -110,6 +110,8 @@ def build(case: dict[str, Any], d: Path, job: dict[str, Any]) -> Any:
             inj["sync"] = case["sync"]
         if case.get("flavour"):
             inj["flavour"] = case["flavour"]
+    if case.get("nested") and c["kind"] == "Script":
+        inj = dict(inj or {"point": "-", "how": "Return", "n": 0, "where": "pre"}, nested=str(d / "nart"))
     kw: dict[str, Any] = dict(
         artifacts_base=(d / "art") if c["art"] else None,
         db=db,
